@@ -233,7 +233,7 @@ def look_probe_specs(rng):
 def look_specs(ctx):
     rng = ctx.rng
     out = look_probe_specs(rng)
-    out += [random_look_spec(rng) for _ in range(ctx.n(45, 700))]
+    out += [random_look_spec(rng) for _ in range(ctx.n(90, 1200))]
     return out
 
 
